@@ -307,6 +307,14 @@ var modelFuncs = map[string]string{
 	"(net/http.Header).Values":   "vpmHeaderValues",
 	"context.WithTimeout":        "vpmWithTimeout",
 	"context.WithCancel":         "vpmWithCancel",
+	"(*sync.Map).Load":           "vpmSyncMapLoad",
+	"(*sync.Map).Store":          "vpmSyncMapStore",
+	"(*sync.Map).LoadOrStore":    "vpmSyncMapLoadOrStore",
+	"(*sync.Map).Delete":         "vpmSyncMapDelete",
+	"(*sync.Map).LoadAndDelete":  "vpmSyncMapLoadAndDelete",
+	"(*sync.Map).Range":          "vpmSyncMapRange",
+	"(*sync.Pool).Get":           "vpmPoolGet",
+	"(*sync.Pool).Put":           "vpmPoolPut",
 }
 
 // interpFuncs: individual functions of otherwise non-interpreted packages that are plain Go.
